@@ -4,7 +4,8 @@ import re
 import logging
 
 from .util import (Source, print_dump, get_marked_atribute, split_pkg, marked, SOURCE_MARK,
-                   get_marked_name, get_marked_import, get_all_usages, join_pkg)
+                   get_marked_name, get_marked_import, get_all_usages, join_pkg,
+                   cycle_guard)
 from .evaluator import EvalCtx
 from .nast import extract_scope
 
@@ -20,6 +21,7 @@ def list_packages(project, root, filename):
 
 
 def assist(project, source, position, filename=None, debug=False):
+    cycle_guard.request()
     source = Source(source, filename, position)
     ctx = EvalCtx(project)
     ln, col = position
@@ -69,6 +71,7 @@ def _loc(location, filename):
 
 
 def location(project, source, position, filename=None, debug=False):
+    cycle_guard.request()
     source = Source(source, filename, position)
 
     debug and print_dump(source.tree)
@@ -125,6 +128,7 @@ def location(project, source, position, filename=None, debug=False):
 
 
 def usages(project, source, filename=None):
+    cycle_guard.request()
     source = Source(source, filename)
     scope = extract_scope(source, project)
     ctx = EvalCtx(project)
